@@ -23,6 +23,8 @@ const prelude = `(set-option :produce-models true)
 (declare-const inil Iface)
 (declare-fun itype (Iface) Int)
 (declare-fun root (Ref) Int)
+(assert (forall ((b Ref) (k Int)) (! (= (root (fld b k)) (root b)) :pattern ((root (fld b k))))))
+(assert (forall ((b Ref) (i Int)) (! (= (root (elem b i)) (root b)) :pattern ((root (elem b i))))))
 (declare-fun bitand (Int Int) Int)
 (declare-fun bitor (Int Int) Int)
 (declare-fun bitxor (Int Int) Int)
